@@ -9,6 +9,7 @@
 //	X  <ty>=<prior> <pv> <keyhex> <src>   Scan(<src>) with src = bytes:<hex> | string:<hex> | nil | int | float | bool | time | ibytes
 //	JV <ty>=<val> <valid>                 JsonColumn[T].Value()
 //	JX <ty>=<prior> <pv> <src>            JsonColumn[T].Scan(<src>)
+//	(argument) conc <G> <N> <same|mixed>  concurrent Value() calls, duplicate nonces reported: see conc.go
 //
 // JSON-typed values are named by catalogue index (<ty>=#3) on input and printed as the hex of their
 // canonical text (%#v) on output.  `jenc=` / `jdec=` are the results of calling encoding/json
@@ -85,7 +86,9 @@ var catSlice = []func() []string{
 	func() []string { return []string{"\xc3\x28"} },
 }
 var catMapAny = []func() map[string]any{
-	func() map[string]any { return map[string]any{"s": "t", "l": []any{1.5, nil, true}, "m": map[string]any{}} },
+	func() map[string]any {
+		return map[string]any{"s": "t", "l": []any{1.5, nil, true}, "m": map[string]any{}}
+	},
 	func() map[string]any { return map[string]any{"i": 1} },
 	func() map[string]any { return nil },
 }
@@ -401,7 +404,9 @@ func pUint(s string, bits int) uint64 {
 	return v
 }
 
-func sInt[T ~int | ~int8 | ~int16 | ~int32 | ~int64](v T) string { return strconv.FormatInt(int64(v), 10) }
+func sInt[T ~int | ~int8 | ~int16 | ~int32 | ~int64](v T) string {
+	return strconv.FormatInt(int64(v), 10)
+}
 func sUint[T ~uint | ~uint8 | ~uint16 | ~uint32 | ~uint64](v T) string {
 	return strconv.FormatUint(uint64(v), 10)
 }
@@ -423,10 +428,10 @@ var table = map[string]tyOps{
 		show: func(v float32) string { return strconv.FormatUint(uint64(math.Float32bits(v)), 10) }},
 	"f64": ops[float64]{name: "f64", parse: func(s string) float64 { return math.Float64frombits(pUint(s, 64)) },
 		show: func(v float64) string { return strconv.FormatUint(math.Float64bits(v), 10) }},
-	"json:bool":   jsOps("json:bool", catBool),
-	"json:stru":   jsOps("json:stru", catStru),
-	"json:map":    jsOps("json:map", catMap),
-	"json:slice":  jsOps("json:slice", catSlice),
+	"json:bool":  jsOps("json:bool", catBool),
+	"json:stru":  jsOps("json:stru", catStru),
+	"json:map":   jsOps("json:map", catMap),
+	"json:slice": jsOps("json:slice", catSlice),
 	"json:mapany": ops[map[string]any]{name: "json:mapany", cat: catMapAny, isJS: true,
 		show:  func(v map[string]any) string { return hex.EncodeToString([]byte(anyRepr(v))) },
 		parse: func(string) map[string]any { panic("catalogue only") }},
@@ -540,6 +545,10 @@ func Main(args []string) {
 				fmt.Fprintln(w, l)
 			}
 		}
+		return
+	}
+	if len(args) > 0 && args[0] == "conc" {
+		concMain(w, args[1:])
 		return
 	}
 	sc := bufio.NewScanner(os.Stdin)
